@@ -22,7 +22,7 @@ CHECKS = {
             "DESIGN.md §4 C18"),
     "C07": ("fault_enumeration", E1,
             "enumeration of (base state x transaction body x failure kind x failure position x route) on the real Db.Update/Batch path with storage-write fault points in bbolt and joined goroutines",
-            "From every base state of a short kitchen-sink exploration, every single operation and all pairs (thorough: sampled triples) over a core alphabet are run with every failure kind at every position: caller error before each operation and after the last, operation rejected by the reference model (duplicate, missing target, restrict, unusable key), constraint veto for each of 6 stores x 3 change types, a failing pre-commit action alone / before / after / between succeeding ones, and storage write k of N failing for EVERY k (fault points inserted into bbolt's write methods by the overlay); through Db.Update, nested Db.Update and Db.Batch. The failing store call and the transaction must return an error, the database must be byte-identical, and no listener, post-commit hook, commit action or tx-complete listener may run (all library goroutines are joined, no sleeps).",
+            "From every base state of a short kitchen-sink exploration (quick: depth <= 1 for all bodies, depth 2 for the bodies made of one delete), every single operation and all pairs (thorough: sampled triples) over a core alphabet are run with every failure kind at every position: caller error before each operation and after the last, operation rejected by the reference model (duplicate, missing target, restrict, unusable key), constraint veto for each of 6 stores x 3 change types, a failing pre-commit action alone / before / after / between succeeding ones / registering further actions / registered on the context before the call, and storage write k of N failing for EVERY k (fault points inserted into bbolt's write methods by the overlay); through Db.Update, nested Db.Update and Db.Batch. The failing store call and the transaction must return an error, the database must be byte-identical, and no listener, post-commit hook, commit action or tx-complete listener may run (all library goroutines are joined, no sleeps).",
             "Storage faults are injected at bbolt's Put/Delete/CreateBucket(IfNotExists)/DeleteBucket entry (pages/fsync are not modelled); Batch is sampled (10 ms per call); single caller.",
             "DESIGN.md §4 C07"),
     "C08": ("model_checking", E1,
@@ -37,7 +37,7 @@ CHECKS = {
             "DESIGN.md §4 C09"),
     "C13": ("exploration", E2,
             "bounded-exhaustive enumeration of values, value trees, field-checker subsets and compound-key lists; write in one committed transaction, read back in a later one",
-            "Every typed setter/getter pair over boundary values (integer extremes, signed zero, infinities, NaN, denormals, NUL-containing and 64 KiB strings, times in several zones incl. year 1/9999), all string lists up to 3 over {\"\",a,b,dup}, every such list written over every list of length <= 2 (committed before or earlier in the same transaction, both list setters), ALL value trees up to depth 2 (thorough: 3) over 8 leaf kinds with up to 2 children (nulls, empty maps/lists inside containers), all 16 field-checker subsets (untouched fields byte-identical) and all compound-key lists up to 3 over 8 element shapes with an exhaustive collision table.",
+            "Every typed setter/getter pair over boundary values (integer extremes, signed zero, infinities, NaN, denormals, NUL-containing and 64 KiB strings, times in several zones incl. year 1/9999), all string lists up to 3 over {\"\",a,b,dup}, every such list written over every list of length <= 2 (committed before or earlier in the same transaction, both list setters), ALL value trees up to depth 2 (thorough: 3) over 8 leaf kinds with up to 2 children (nulls, empty maps/lists inside containers), all 16 field-checker subsets (untouched fields byte-identical), all 32 selections under a MappedFieldChecker, and all compound-key lists up to 3 over 8 element shapes with an exhaustive collision table.",
             "The reserved list-size key and empty map keys (rejected loudly by bbolt) are outside the alphabet.",
             "DESIGN.md §4 C13"),
     "C14": ("exploration", E2,
@@ -67,12 +67,12 @@ CHECKS = {
             "DESIGN.md §4 C20"),
     "C02": ("exploration", E2,
             "bounded-exhaustive enumeration of sort specifications x skip/limit x predicates x all assignments of the sort fields; differential against a reference sorter/pager over four query routes",
-            "All sort specifications of 0..2 fields (thorough: every pair, 3 and 5 fields), every direction spelling, 56 skip/limit combinations (absent, none, negative, 0, beyond the end) and four predicate shapes are run on ALL assignments of the sort fields over {null,v1,v2} on 4 entities; ids, order and total count from QueryIds, QueryIdsC on a re-used query, QueryWithCursorC over an index cursor and IterateIds must equal the reference, inside the writing transaction and (quick: families of at most one sort field) again on the committed pages. Child stores: on every state of a short parent/child exploration 36 skip/limit combinations x 4 sort specifications through the parent, the plain child and the extended child store (a parent-only row must not consume a child store's skip/limit). Boundary-value pass: single-field sorts over extreme integers, denormal/huge floats, instants outside the int64-nanosecond range and 1 ns apart, prefix/case/multi-byte strings - all assignments on 3 entities.",
+            "All sort specifications of 0..2 fields (thorough: every pair, 3 and 5 fields), every direction spelling, 56 skip/limit combinations (absent, none, negative, 0, beyond the end) and four predicate shapes are run on ALL assignments of the sort fields over {null,v1,v2} on 4 entities; ids, order and total count from QueryIds, QueryIdsC on a re-used query, QueryWithCursorC over an index cursor and IterateIds must equal the reference, inside the writing transaction and (quick: families of at most one sort field) again on the committed pages. Child stores: on every state of a short parent/child exploration 36 skip/limit combinations x 4 sort specifications through the parent, the plain child and the extended child store (a parent-only row must not consume a child store's skip/limit). AdoptSortFields: a used query that is given another query's sort clause, used again, given its own clause back and used a third time follows the clause it has at each use. Boundary-value pass: single-field sorts over extreme integers, denormal/huge floats, instants outside the int64-nanosecond range and 1 ns apart, prefix/case/multi-byte strings - all assignments on 3 entities.",
             "4 entities; domains of 3 values (2 when two or more sort fields); dotted sort fields are not supported by the engine and not generated.",
             "DESIGN.md §4 C02"),
     "C19": ("exploration", E2,
             "bounded-exhaustive differential: object store vs bolt store vs reference on every scalar filter atom/composition and every sort/skip/limit query over all small datasets",
-            "Every scalar-symbol filter of C01 and every sort/paging query of C02 is run on objectz.ObjectStore and on a bolt store holding the same values for ALL assignments of the mentioned fields; ids, order and total count must agree with each other and with the reference; plus the boundary-value pass of C01/C02 (comparisons against and sorts over extreme values of every type).",
+            "Every scalar-symbol filter of C01 and every sort/paging query of C02 is run on objectz.ObjectStore and on a bolt store holding the same values for ALL assignments of the mentioned fields; ids, order and total count must agree with each other and with the reference, through QueryEntities and through QueryEntitiesC on a query parsed once and used twice; plus the boundary-value pass of C01/C02 (comparisons against and sorts over extreme values of every type).",
             "Fields of the five scalar types or null; 2 entities for filters, 4 for paging.",
             "DESIGN.md §4 C19"),
     "C01": ("exploration", E2,
@@ -82,17 +82,17 @@ CHECKS = {
             "DESIGN.md §4 C01"),
     "C03": ("model_checking", E1,
             "explicit-state BFS to closure over real stores; every state x every transaction program vs reference model (complete database image + API reads)",
-            "All reachable canonical database images of the unique/set index scenario are enumerated to closure; on every transition the outcome class and the complete bucket image are compared with a reference model, so index buckets are checked byte-for-byte against entity-derived state; one and two operations per transaction.",
+            "All reachable canonical database images of the unique/set index scenario are enumerated to closure; on every transition the outcome class and the complete bucket image are compared with a reference model, so index buckets are checked byte-for-byte against entity-derived state; one and two operations per transaction; a restricted view with three entities alive at once; the same indexes used through a plain and an extended child store; reads through ReadIndex, SetReadIndex (Read, ReadKeys, OpenValueCursor) and FindMatching / FindMatchingAnyOf over 0..2 present and absent values.",
             "Tiny universes (2-3 ids, 3 names, 3 aliases, 4 role sets); bbolt atomicity trusted; equal masked dumps are merged (same futures).",
             "DESIGN.md §4 C03"),
     "C04": ("model_checking", E1,
             "explicit-state BFS to closure per foreign-key wiring (7 wirings + self-referential), plain and hostile id strings; reference model comparison of complete image, back-reference reads and error classes",
-            "Every reachable state of each wiring is enumerated to closure; restrict/cascade outcome, surviving entities and back-reference buckets are compared with a reference model on every transition, repeated with ids containing quotes, backslashes, keywords and control characters, and with three referrers where the target is deleted in the same transaction as an earlier change of the referencing store.",
+            "Every reachable state of each wiring is enumerated to closure; restrict/cascade outcome, surviving entities and back-reference buckets are compared with a reference model on every transition, repeated with ids containing quotes, backslashes, keywords and control characters, and with three referrers where the target is deleted in the same transaction as an earlier change of the referencing store; every refused delete is additionally run through Db.Batch (which re-runs a failed function on its own): same refusal, unchanged database.",
             "2 targets x 2 referrers (3 self-referential entities); cascade over a reference cycle is probed in a child process first (a stack overflow would kill the checker); since fix 0176587 the probe survives and the cycle deletes are executed and compared in-process.",
             "DESIGN.md §4 C04"),
     "C05": ("model_checking", E1,
             "explicit-state BFS to closure over link / ref-counted link operations from both sides + exhaustive (current set x requested list) enumeration for SetLinks",
-            "All reachable link states (symmetric and ref-counted) are enumerated to closure with every operation issued from either side, one and two operations per transaction; both directions and both counts are compared byte-for-byte with the model; SetLinks is checked for every current set over 4 ids and every request list up to length 3/4 including duplicates, unsorted input and a missing id.",
+            "All reachable link states (symmetric and ref-counted) are enumerated to closure with every operation issued from either side (collection API, and the entity-level route Update -> PersistContext.SetLinkedIds with and without a field checker), one and two operations per transaction, 2x2 and 2x3 entities, plus a link collection owned by a child store; reads through the collection and through the store's related-entity API; both directions and both counts are compared byte-for-byte with the model; SetLinks is checked for every current set over 4 ids and every request list up to length 3/4 including duplicates, unsorted input and a missing id.",
             "2x2 (2x3) entities, counts bounded by 2/3 (Increment above the bound is skipped on both sides), negative counts outside the property's domain.",
             "DESIGN.md §4 C05"),
     "C06": ("model_checking", E1,
